@@ -76,7 +76,10 @@ impl Gen {
             other => other.clone(),
         }
     }
-    fn pair(&mut self) -> (Tm, Tm) {
+    fn pair(&mut self, step: usize) -> (Tm, Tm) {
+        // later steps of a session: variables that earlier steps bound (to compound terms, to each other)
+        // are unified with each other more often
+        if step >= 1 && self.rng.gen_range(0..100) < 12 + 8 * step.min(3) { return (self.var(), self.var()); }
         let a = self.term(3);
         let b = if self.rng.gen_bool(0.6) { self.related(&a, 3) } else { self.term(3) };
         let r = self.rng.gen_range(0..100);
@@ -112,13 +115,13 @@ pub fn worker(out: &str, seed: u64, start: usize, end: usize) -> i32 {
         for idx in start..end {
             let mut rng = StdRng::seed_from_u64(run_seed(seed, idx));
             let nvars = rng.gen_range(2..=6);
-            let steps = rng.gen_range(1..=4);
+            let steps = rng.gen_range(1..=5);
             let mut g = Gen { rng, nvars };
             let vars: Vec<Tm> = (1..=nvars).map(|i| Tm::Var(i, NAMES[i - 1].to_string())).collect();
             writeln!(f, "{}", json!({"e": "session", "run": idx, "nvars": nvars})).unwrap();
             let mut ss: Rc<SubstitutionSet<'static>> = Rc::new(vec![]);
-            for _ in 0..steps {
-                let (l, r) = g.pair();
+            for step in 0..steps {
+                let (l, r) = g.pair(step);
                 writeln!(f, "{}", json!({"e": "try", "l": tm_to_json(&l), "r": tm_to_json(&r)})).unwrap();
                 f.flush().unwrap();
                 let (lu, ru) = (build(&l), build(&r));
